@@ -187,6 +187,11 @@ class _Gen:
                 obits = 2
             off = self.explicit_unsigned(readable, maxw=obits)
             t = ["part", ["sig", si], off, width, stride]
+        elif k < 0.86 and not whole and n >= 1:
+            # a part select of a *slice*: what falls outside the slice is dropped, the rest of the signal is not touched
+            width = r.randint(0, min(4, n + 1))
+            stride = r.choice([1, width]) if width else 1
+            t = ["part", base, self.explicit_unsigned(readable), width, stride]
         elif k < 0.86 and whole and w > 0:
             width = r.randint(0, min(4, w + 1))
             stride = r.choice([1, width]) if width else 1
@@ -833,4 +838,5 @@ def build(prog):
         return e
 
     B.top = wrap(prog["top"])
+    B.ex = ex          # expression / target builder, for structured testbench writes
     return B
